@@ -3,6 +3,7 @@ import itertools
 from lib import core, gen
 
 LEVEL = 'proof'
+BBH_FEATURES = []      # harness command families this check needs (fallback build, lib/core.py build_bbh)
 
 
 def parse_span(s):
